@@ -84,7 +84,24 @@ func (g *Gen) constNeedle(d int, forRange bool, strElems bool) *X {
 		g.Excluded["in-array-type"]++
 		return []*X{Var("S", TStr), Var("S2", TStr), LitStr("a"), Bin("+", Var("S", TStr), LitStr("b"), TStr)}[g.pick(4, "cnstr")]
 	}
-	switch g.pick(10, "cnk") {
+	switch g.pick(12, "cnk") {
+	case 10, 11:
+		// arithmetic / conditional mixing an int literal with an operand of another kind: the checker's
+		// static type for it can be int although the value is not (finding F26's region)
+		other := []*X{Var("F", TF64), Var("G", TF64), Var("F32", Num(KF32)), Var("U8", Num(KUint8)), Var("I64", Num(KInt64))}[g.pick(5, "cndyn")]
+		if g.Dyn && g.Spec != nil && g.Spec.AnyTy().IsNum() && g.coin("cndynany") {
+			other = Var("Any", g.Spec.AnyTy())
+		}
+		lit := LitInt(g.pick(4, "cndynlit"))
+		if g.coin("cndyncond") {
+			return Cond(g.Leaf(TBool), lit, other, other.Ty)
+		}
+		op := []string{"+", "-", "*"}[g.pick(3, "cndynop")]
+		ty := Num(Promote(KInt, other.Ty.K))
+		if g.coin("cndynswap") {
+			return Bin(op, other, lit, ty)
+		}
+		return Bin(op, lit, other, ty)
 	case 0, 1:
 		return g.Expr(TInt, d)
 	case 2:
